@@ -138,6 +138,23 @@ def check(case, eng=None):
     return {"nontrivial": bool(ties or coincident or atmax), "classes": cl}
 
 
+@st.composite
+def huge_reference_case(draw):
+    """a reference with more labels than a 16-bit label number holds; the query is placed beyond label 32767"""
+    n = draw(st.sampled_from([33000, 40000, 66000]))
+    g = draw(st.integers(400, 3000))
+    jit = draw(st.integers(1, g))
+    r = [1000 + i * g + (i * i * 7) % jit for i in range(n)]
+    i0 = draw(st.sampled_from([32760, 32767, 32768, n - 40, 20]))
+    k = draw(st.integers(3, 12))
+    D = draw(st.sampled_from([200, 1500]))
+    q = [r[i0 + j] - r[i0] + draw(st.integers(-D // 2, D // 2)) for j in range(k)]
+    q = sorted(set(max(0, x) for x in q))
+    start = r[i0]
+    return {"r": r, "q": q, "qlen": q[-1] + 1, "shift": draw(st.sampled_from([0, 3])), "rev": draw(st.booleans()), "maxd": D,
+            "start": start, "end": start + q[-1] + 1}
+
+
 def check_history(case):
     """one AlignerEngine used for a sequence of calls, as one worker uses it for a whole molecule and then for the
     fragments of that molecule (same molecule id and length, fewer labels, label-number offset), on either strand and
@@ -235,7 +252,8 @@ def random_case(draw):
     end = start + qlen if draw(st.integers(0, 5)) else start + draw(st.integers(0, 2 * int(qlen) + 1))
     r = coords(nr, start + draw(st.integers(-3 * D - 5, 10)))
     # plant labels at the inclusive boundaries
-    plant = draw(st.lists(st.sampled_from(["lo", "hi", "qlo", "qhi", "dup"]), max_size=3))
+    plant = draw(st.lists(st.sampled_from(["lo", "hi", "qlo", "qhi", "dup", "qlo-", "qhi+", "lo-", "hi+"]), max_size=3))
+    eps = 0.1 if fl else 1          # the smallest step the coordinates have: just outside the inclusive limits
     qq = dict(q=q, qlen=qlen, shift=shift, rev=rev)
     ql = model_query(qq)
     for pl in plant:
@@ -246,6 +264,13 @@ def random_case(draw):
         elif pl in ("qlo", "qhi") and ql:
             _, qp = draw(st.sampled_from(ql))
             r.append(qp + start + (D if pl == "qhi" else -D))
+        elif pl in ("qlo-", "qhi+") and ql:
+            _, qp = draw(st.sampled_from(ql))
+            r.append(qp + start + (D + eps if pl == "qhi+" else -D - eps))
+        elif pl == "lo-":
+            r.append(start - D - eps)
+        elif pl == "hi+":
+            r.append(end + D + eps)
         elif pl == "dup" and r:
             r.append(draw(st.sampled_from(r)))
     r = sorted(round(x, 1) if fl else x for x in r)
@@ -267,6 +292,8 @@ def subchecks(tier):
             describe="integer and one-decimal coordinates with planted boundary labels",
             required_classes=("tie", "coincident", "at-boundary", "empty-window", "rev", "shift")),
     ]
+    subs.append(Sub("huge-reference", "hyp", check, strategy=huge_reference_case, examples=32 if q else 600, shrink_budget=6,
+                    describe="references of 33000-66000 labels, the query placed beyond label 32767"))
     subs.append(Sub("engine-history", "hyp", check_history, strategy=history_case, examples=12000 if q else 300000, shrink_budget=1500,
                     describe="one engine instance reused for a whole molecule, its fragments, the other strand and other seed offsets",
                     required_classes=("then-fragment", "then-strand")))
